@@ -18,6 +18,7 @@ EXPLANATION = (
     "iterator); the scalar->matrix kernel writes the scalar to every element; (R4) the conversion dispatchers' fallback arms return Err. "
     "Not decided: int->int narrowing policy, rational/complex conversions, matrix->set (C14)."
     ' (R5) in the reshape dispatch `match (matrix, shape[0], shape[1])` every arm allocates its output with (rows, cols) = (second, third) pattern position.'
+    " (R6) Value::convert_to (the scalar table behind option/set/table-column annotations): each arm builds the variant of its target kind from a single `as` cast to that kind's element type."
 )
 
 ALLOWED = {
